@@ -373,6 +373,9 @@ class SymInt:
     def is_integer(self):
         return True
 
+    def item(self):
+        return self
+
     @property
     def real(self):
         return self
@@ -602,6 +605,9 @@ class SymReal:
 
     def is_integer(self):
         return _wrapb(z3.IsInt(self.z))
+
+    def item(self):
+        return self
 
     def __repr__(self):
         return f"SymReal({self.z})"
